@@ -41,3 +41,152 @@ Proof.
   destruct (advance_round_spec c s now HA HI) as (s' & Ha & HI' & _ & _ & Ht & Hq & Htf & Hmr & _).
   exists s'. split; [assumption|]. split; [assumption|]. repeat split; assumption.
 Qed.
+
+(* ------------------------------------------------------------------------------------------------------
+   C06 over WHOLE RUNS (Proofs/RunLog.v, Proofs/RunLogProps.v).
+   [run_log c t0 is] is the observation log of the run on the input history [is]: every probe handed to the
+   network with the outcome of the send, every response delivered, every clock reading of update_round
+   (OUpdate: round stays open; OPublish: round published, with the reading of advance_round).
+   [ghost_after c t0 l] is a fold over a log prefix that never looks at the tracer state: the number and the
+   send log [g_S] of the round in progress, its genuine answers [g_A] (decided by [genuine] on the log alone:
+   validates, carries the trace id, names the sequence of an answerable probe of this round not answered
+   before) and the established distance of the target [g_dist] (smallest ttl the target answered at; forgotten
+   when another host answers at that ttl or beyond; carried over from round to round). *)
+From TV Require Import Core.State Proofs.RoundHistory Proofs.StateProofs Proofs.RunLog Proofs.RunLogProps.
+
+(* the log is the run: erasing deliveries and clock readings gives the event list of [run] *)
+Theorem c06_log_is_the_run : forall c t0 is, Accept c ->
+  events_of (run_log c t0 is) = fst (fst (run c t0 is)).
+Proof. exact run_log_events. Qed.
+
+(* and the ghost of the log is the ghost history of C01 (Proofs/RoundHistory.v): the published rounds with the send
+   log and the accepted deliveries [run_hist] attaches to them are the publishes of the log with [g_S], [g_A] of
+   the log before each - the log-only notion [genuine] and the state-based [ghost_pick] of C01 agree on every run *)
+Theorem c06_log_ghost_is_round_history : forall c t0 is, Accept c ->
+  run_hist c (ts_new c t0) [] [] is = publishes c (g_init t0) (run_log c t0 is).
+Proof. exact run_hist_is_log_lemma. Qed.
+
+(* every probe handed to the network in any run, judged against the log before it: its ttl is the next one of
+   the round (first_ttl + number of probes of the round that were not abandoned), it carries the number of the
+   round, lies within first_ttl..max_ttl, the target has not answered in this round, and it is not above the
+   established target distance or - while that is unknown - at most max_inflight beyond the farthest hop that
+   has answered in this round (first_ttl - 1 if none has) *)
+Theorem c06_run_send_discipline : forall c t0 is l1 p o l2, Accept c ->
+  run_log c t0 is = l1 ++ OSend p o :: l2 ->
+  let g := ghost_after c t0 l1 in
+  p_ttl p = next_ttl c (g_S g) /\ p_round p = g_round g /\
+  first_ttl c <= p_ttl p <= max_ttl c /\
+  found (g_A g) = false /\
+  match g_dist g with
+  | Some d => p_ttl p <= d
+  | None => p_ttl p - (match farthest (g_A g) with Some m => m | None => first_ttl c - 1 end) <= max_inflight c
+  end.
+Proof. exact c06_run_send_lemma. Qed.
+
+(* the send log of the round in progress, at every point of every run: ttls first_ttl, first_ttl+1, ... where
+   exactly the abandoned probes (address in use, TCP) are followed by a probe of the same ttl; in closed form,
+   the probes that were not abandoned carry first_ttl, first_ttl+1, ... without gap or repeat *)
+Theorem c06_round_send_log : forall c t0 is l1 l2, Accept c -> run_log c t0 is = l1 ++ l2 ->
+  let S := g_S (ghost_after c t0 l1) in
+  ttl_chain (first_ttl c) S /\ map p_ttl (kept S) = zrange (first_ttl c) (length (kept S)).
+Proof.
+  intros c t0 is l1 l2 HA E S. pose proof (c06_round_ttl_chain_lemma c t0 is l1 l2 HA E) as H.
+  split; [exact H|exact (ttl_chain_kept _ _ H)].
+Qed.
+
+(* every round [run] publishes: the ttls of its probes are first_ttl, first_ttl+1, ... without gap or repeat
+   (a re-issued probe keeps the ttl, the abandoned slot is Skipped and carries none), and for
+   first_ttl <= max_ttl, 1 <= max_inflight there is at least the first_ttl probe *)
+Theorem c06_published_rounds : forall c t0 is, Accept c ->
+  Forall (fun r =>
+    ttls (rr_probes r) = zrange (first_ttl c) (length (ttls (rr_probes r))) /\
+    (first_ttl c <= max_ttl c -> 1 <= max_inflight c -> exists rest, ttls (rr_probes r) = first_ttl c :: rest))
+    (pubs (fst (fst (run c t0 is)))).
+Proof. exact c06_published_rounds_lemma. Qed.
+
+(* every round sends at least the first-ttl probe: whenever update_round reads the clock - whether it then
+   publishes the round or leaves it open - a probe with ttl first_ttl has gone out in this round and was not
+   abandoned *)
+Theorem c06_every_round_sends_first : forall c t0 is l1 o l2, Accept c -> run_log c t0 is = l1 ++ o :: l2 ->
+  (exists now, o = OUpdate now) \/ (exists r now adv, o = OPublish r now adv) ->
+  first_ttl c <= max_ttl c -> 1 <= max_inflight c ->
+  exists p x, In (p, x) (g_S (ghost_after c t0 l1)) /\ x <> AddressInUseO /\ p_ttl p = first_ttl c.
+Proof. exact c06_run_round_sent_lemma. Qed.
+
+(* never after the target has answered in that round: between a genuine answer of the target and any later
+   send a round has been published *)
+Theorem c06_no_send_after_target : forall c t0 is l1 r p sr l2 q o l3, Accept c ->
+  run_log c t0 is = l1 ++ ORecv r :: l2 ++ OSend q o :: l3 ->
+  genuine c (g_S (ghost_after c t0 l1)) (g_A (ghost_after c t0 l1)) r = Some (p, sr) -> sr_is_target sr = true ->
+  exists r' now adv, In (OPublish r' now adv) l2.
+Proof. exact c06_no_send_after_target_lemma. Qed.
+
+(* never above the target's distance once it is established on a stable path, across rounds: if throughout
+   the run the target answers exactly the probes of ttl >= D ([stable]), then after the target has answered a
+   probe p no probe of a larger ttl is ever sent again - in that round or in any later one *)
+Theorem c06_stable_path : forall c t0 is D l1 r p sr l2 q o l3, Accept c ->
+  stable c D (g_init t0) (run_log c t0 is) ->
+  run_log c t0 is = l1 ++ ORecv r :: l2 ++ OSend q o :: l3 ->
+  genuine c (g_S (ghost_after c t0 l1)) (g_A (ghost_after c t0 l1)) r = Some (p, sr) -> sr_is_target sr = true ->
+  p_ttl q <= p_ttl p.
+Proof. exact c06_stable_path_lemma. Qed.
+
+(* the ghost is what the code holds: at the end of every run that did not fail (so at every iteration boundary)
+   the inputs of the send decision in the tracer state - next ttl, target_found, max_received_ttl, target_ttl
+   (carried over from round to round), round - are the ghost of the log *)
+Theorem c06_state_is_ghost : forall c t0 is ev o sf, Accept c -> run c t0 is = (ev, o, sf) ->
+  (forall e, o <> Failed_with e) ->
+  let g := ghost_after c t0 (run_log c t0 is) in
+  ttl sf = next_ttl c (g_S g) /\ target_found sf = found (g_A g) /\ max_received_ttl sf = farthest (g_A g) /\
+  target_ttl sf = g_dist g /\ round sf = g_round g.
+Proof. intros c t0 is ev o sf HA E Hne. exact (proj1 (ghost_is_state_lemma c t0 is ev o sf HA E Hne)). Qed.
+
+(* non-vacuity: the example run of Proofs/RunLogProps.v (two rounds over a stable path of length 3) *)
+Example c06_ex_accept : Accept rl_ex_cfg /\ first_ttl rl_ex_cfg <= max_ttl rl_ex_cfg /\ 1 <= max_inflight rl_ex_cfg.
+Proof. split; [split; [reflexivity|unfold cfg_wf, u8, u16; cbn; lia]|cbn; lia]. Qed.
+
+(* the published rounds: 1..4 in the first round, 1..3 in the second (the distance 3 is carried over) *)
+Example c06_ex_rounds :
+  map (fun r => ttls (rr_probes r)) (pubs (fst (fst (run rl_ex_cfg 0 rl_ex_ins)))) = [[1;2;3;4]; [1;2;3]].
+Proof. vm_compute. reflexivity. Qed.
+
+Example c06_ex_stable : stable rl_ex_cfg 3 (g_init 0) (run_log rl_ex_cfg 0 rl_ex_ins).
+Proof. vm_compute. repeat split. Qed.
+
+Example c06_ex_send : exists p l2, run_log rl_ex_cfg 0 rl_ex_ins = [] ++ OSend p Sent :: l2 /\ p_ttl p = 1.
+Proof. eexists _, _. split; vm_compute; reflexivity. Qed.
+
+(* the hypotheses of c06_no_send_after_target / c06_stable_path are met in that run: the target's answer to the
+   ttl 3 probe of round 0, and the ttl 3 probe of round 1 sent after it *)
+Example c06_ex_stable_instance :
+  let L := run_log rl_ex_cfg 0 rl_ex_ins in
+  exists l1 r p sr l2 q o l3, L = l1 ++ ORecv r :: l2 ++ OSend q o :: l3 /\
+    genuine rl_ex_cfg (g_S (ghost_after rl_ex_cfg 0 l1)) (g_A (ghost_after rl_ex_cfg 0 l1)) r = Some (p, sr) /\
+    sr_is_target sr = true /\ p_ttl p = 3 /\ p_ttl q = 3 /\ p_round q = 1.
+Proof.
+  intros L. exists (firstn 9 L), (rl_ex_er 4 102). eexists _, _. exists (firstn 8 (skipn 10 L)). eexists _, _. exists (skipn 19 L).
+  split; [lazy; reflexivity|]. split; [lazy; reflexivity|]. lazy. repeat split.
+Qed.
+
+(* TCP with port collisions (example run of Proofs/RunLogProps.v): round 0 hands four probes to the network
+   with ttls 2,2,2,3; the published round has four slots (two Skipped) whose ttls are 2,3; the reply naming the
+   abandoned sequence 100 is not genuine, the one naming sequence 102 is; round 1 re-issues ttl 2 once *)
+Example c06_ex_tcp :
+  map (fun r => (length (rr_probes r), ttls (rr_probes r))) (pubs (fst (fst (run rl_ex_tcp_cfg 0 rl_ex_tcp_ins)))) = [(4%nat, [2;3])] /\
+  map (fun po => (p_ttl (fst po), snd po)) (g_S (ghost_after rl_ex_tcp_cfg 0 (run_log rl_ex_tcp_cfg 0 rl_ex_tcp_ins))) =
+    [(2, AddressInUseO); (2, Sent)] /\
+  g_dist (ghost_after rl_ex_tcp_cfg 0 (run_log rl_ex_tcp_cfg 0 rl_ex_tcp_ins)) = Some 2.
+Proof. vm_compute. repeat split. Qed.
+
+(* why c06_stable_path needs [stable]: on a path that changes (a router answers the ttl 4 probe after the target
+   answered ttl 3) the established distance is forgotten - by design of the code - and the next round sends ttl 4 *)
+Example c06_ex_unstable_path :
+  let L := run_log rl_ex_cfg 0 rl_ex_unstable_ins in
+  exists l1 r p sr l2 q o l3, L = l1 ++ ORecv r :: l2 ++ OSend q o :: l3 /\
+    genuine rl_ex_cfg (g_S (ghost_after rl_ex_cfg 0 l1)) (g_A (ghost_after rl_ex_cfg 0 l1)) r = Some (p, sr) /\
+    sr_is_target sr = true /\ p_ttl p = 3 /\ p_ttl q = 4 /\ ~ stable rl_ex_cfg 3 (g_init 0) L.
+Proof.
+  intros L. exists (firstn 9 L), (rl_ex_er 4 102). eexists _, _. exists (firstn 12 (skipn 10 L)). eexists _, _. exists (skipn 23 L).
+  split; [lazy; reflexivity|]. split; [lazy; reflexivity|]. repeat (split; [lazy; reflexivity|]).
+  lazy. intros H. decompose [and] H. discriminate.
+Qed.
